@@ -1,13 +1,16 @@
 /* C13: residue scanner. Secrets (keys, derived key material, plaintext) are registered as sets of
- * 16-byte windows (8-byte windows for general-purpose registers); targets (register dump, dead stack
+ * 8-byte windows (the granularity of the library's own safe-check); targets (register dump, dead stack
  * copy, manager block) are scanned for any of them at any byte offset. Low-entropy windows are not
- * registered (they match padding and zero runs). */
+ * registered (they match padding, counters and zero runs). With random secrets the chance that an
+ * unrelated 8-byte string equals one of <= 2^20 windows is < 2^-44 per scanned offset. */
+#define WIN 8
+#define WIN_DISTINCT 7
 #define _GNU_SOURCE
 #include "hx.h"
 #include <stdlib.h>
 #include <string.h>
 
-#define TAB_BITS 17
+#define TAB_BITS 21
 #define TAB_SIZE (1u << TAB_BITS)
 typedef struct {
         uint64_t k;
@@ -18,6 +21,7 @@ static ent *tab;
 static uint8_t *pool;
 static size_t pool_used, pool_cap;
 static int nent;
+int sec_hash_text = 1;
 
 static unsigned
 hash64(uint64_t k)
@@ -55,7 +59,7 @@ sec_add(const void *ptr, size_t len, const char *what)
         if (!tab)
                 sec_reset();
         const uint8_t *p = ptr;
-        if (!p || len < 16)
+        if (!p || len < WIN)
                 return;
         if (pool_used + len > pool_cap) {
                 /* windows point into the pool: never move it, start a new one */
@@ -66,8 +70,8 @@ sec_add(const void *ptr, size_t len, const char *what)
         uint8_t *c = pool + pool_used;
         memcpy(c, p, len);
         pool_used += len;
-        for (size_t i = 0; i + 16 <= len; i++) {
-                if (distinct_bytes(c + i, 16) < 10)
+        for (size_t i = 0; i + WIN <= len; i++) {
+                if (distinct_bytes(c + i, WIN) < WIN_DISTINCT)
                         continue;
                 if (nent > (int) (TAB_SIZE * 3 / 4))
                         return;
@@ -89,16 +93,16 @@ sec_scan(const void *buf, size_t n, const char **what, long *off)
 {
         const uint8_t *b = buf;
         int hits = 0;
-        if (!tab || nent == 0 || n < 16)
+        if (!tab || nent == 0 || n < WIN)
                 return 0;
-        for (size_t i = 0; i + 16 <= n; i++) {
+        for (size_t i = 0; i + WIN <= n; i++) {
                 uint64_t k;
                 memcpy(&k, b + i, 8);
                 if (k == 0)
                         continue;
                 unsigned h = hash64(k);
                 while (tab[h].w) {
-                        if (tab[h].k == k && memcmp(tab[h].w, b + i, 16) == 0) {
+                        if (tab[h].k == k) {
                                 if (!hits) {
                                         if (what)
                                                 *what = tab[h].what;
@@ -106,7 +110,7 @@ sec_scan(const void *buf, size_t n, const char **what, long *off)
                                                 *off = (long) i;
                                 }
                                 hits++;
-                                i += 15;
+                                i += WIN - 1;
                                 break;
                         }
                         h = (h + 1) & (TAB_SIZE - 1);
@@ -170,6 +174,10 @@ sec_add_job(const hx_job *j)
         /* plaintext: the source of an encrypt job; the destination of a decrypt job is added on return */
         if (sp->cm != IMB_CIPHER_NULL && sp->dir == IMB_DIR_ENCRYPT && sp->len >= 16)
                 sec_add(j->src_snapshot + sp->coff, sp->len, "plaintext (encrypt source)");
+        /* the message of a hash-only job is text the caller has not ciphered: the library's own safe
+         * check (xvalid) fills it with the plain-text pattern too */
+        if (sp->cm == IMB_CIPHER_NULL && sp->ha != IMB_AUTH_NULL && sp->hlen >= WIN && sec_hash_text)
+                sec_add(j->src_snapshot + sp->hoff, sp->hlen, "text (hash-only message)");
 }
 
 void
